@@ -155,6 +155,39 @@ theorem layout_refines_asm_scope_partial {num : Nat → Bytes → Nat} (hinj : N
             exact this
 
 
+/-- C05 (every statement's bytes at its address) and C08 (pipeline clause: above, below, or IN ANOTHER FILE) for projects with
+`.include/.global/.export/.import`.  In the image of a successful run every emitting statement `s` of the flattened
+program stands with its reference bytes at its reference address, and `s` is the abstraction `absStmt … t' c' el` of a
+source statement of some file instance over that instance's FINAL table `t'` (= `E` at the instance).  A name of that file
+may be defined in the file itself (above or below the statement), in a file it includes that publishes it (`.global` /
+`.export`, the `.include` above or below the statement) or in its includer (`.import`): in every case the name's value in
+`t'` is the value of the defining symbol (the alias statements), so the bytes are those of the statement evaluated with
+the definitions wherever they stand. -/
+theorem every_statement_placed_asm_scope_partial {num : Nat → Bytes → Nat} (hinj : NumInj num) (fs : Bytes → Option Bytes)
+    (main data : Bytes) (hfs : fs main = some data) (hglob : XferProject fs maxDepth [] main data) (o : Outcome)
+    (h : run fs main = .done o) (hs : o.success = true) :
+    ∃ (els : List Element) (perr : Option ParseErr) (p : List Layout.Stmt) (E : Layout.Env) (t : Table) (n : Nat)
+      (A : List (Bytes × Int)),
+      parseFile data = .ok (els, perr) ∧ EnvRel (num 1) t E ∧ XFlat num fs encoder E 0 1 main t 2 none els p n ∧
+      ∀ q s r, p ++ aliases (num 0) (num 1) A = q ++ s :: r → s.emits = true →
+        (∃ c, Layout.Ref.cursorAfter none q = some c ∧
+          ∀ i, i < (Layout.Ref.bytes c s).length → Map.abs o.image (c + i) = (Layout.Ref.bytes c s)[i]?) ∧
+        ∃ id' path' t' c' el, EnvRel (num id') t' E ∧ isInclude el = false ∧
+          s = absStmt (num id') fs encoder path' t' c' el := by
+  obtain ⟨els, perr, p, E, t, n, A, im', h1, h2, h3, _, _, _, _, _, h9, h10, _⟩ :=
+    layout_refines_asm_scope_partial hinj fs main data hfs hglob o h hs
+  refine ⟨els, perr, p, E, t, n, A, h1, h2, h3, fun q s r hp hse => ⟨?_, ?_⟩⟩
+  · obtain ⟨x, hx, hb⟩ := h10 q s r hp hse
+    exact ⟨x, hx, fun i hi => by rw [h9]; exact hb i hi⟩
+  · have hmem : s ∈ p ++ aliases (num 0) (num 1) A := by rw [hp]; simp
+    rcases List.mem_append.mp hmem with hm | hm
+    · rcases h3.source h2 s hm with hsrc | ⟨n', d, v, rfl⟩
+      · exact hsrc
+      · cases hse
+    · simp only [aliases, List.mem_map] at hm
+      obtain ⟨xv, _, rfl⟩ := hm
+      cases hse
+
 /-! ### stage 2 as an instance -/
 
 theorem pubName_of_global {el : Element} {x : Bytes} (h : globalName el = some x) : pubName el = some x := by
